@@ -33,6 +33,11 @@ def c05(o):
 def c06(o):
     if not o.get("d2", {}).get("ok"):
         return None
+    if o.get("m1", {}).get("out") and o.get("m2", {}).get("ok") and o["m2"]["out"]:
+        i = [a for a, _ in o["m2"]["out"]].index("level")
+        o["m2"] = dict(o["m2"], out=[list(p) for p in o["m2"]["out"]])
+        o["m2"]["out"][i][1] = cps("!!!!")  # the reloaded rule prints another level
+        return o
     o["d2"]["out"] = o["d2"]["out"] + cps(" ")  # the second dict form differs from the first
     return o
 
